@@ -426,13 +426,16 @@ func zzPollTimerStop(t *time.Timer) bool { return true }
 
 // a poll period passes for every waiter that is parked on a timer
 func zzTick() {
-	for _, ch := range zzPollTimers {
+	// take the armed timers first: a send is a scheduling point, and a timer armed by a waiter that runs in
+	// between belongs to the next period (clearing the list after the loop would lose it for ever)
+	armed := zzPollTimers
+	zzPollTimers = nil
+	for _, ch := range armed {
 		select {
 		case ch <- time.Time{}:
 		default:
 		}
 	}
-	zzPollTimers = nil
 }
 
 func zzC07Redis() {
